@@ -10,6 +10,12 @@
 //!   `c:<id>`      connect without pausing
 //!   `n:<id>:<k|->`  the embedder calls `Clients::disconnect(id, Some(conn id of k) | None)`
 //!   `p:<k>`       probe: is k served?  (ping answered AND a datagram it sends reaches the observer)
+//!   `f:<k>`       pile up traffic for k's endpoint: two flooder clients keep sending it 32 kB
+//!                 datagrams while every client of that endpoint reads slowly (4 ms per datagram),
+//!                 until the relay is seen to refuse datagrams because the send queue of the
+//!                 endpoint's active connection is FULL (512).  From then on that connection's
+//!                 actor is busy writing and finds a non-empty queue every time it re-enters its
+//!                 select.  The flood goes on until the next `n:` has been served.
 //! Connections are numbered in the order of their `a`/`c` ops.
 //!
 //! Observation per op: `(ret, still)`.  `still` is empty except for `n:`: the connections the
@@ -21,7 +27,7 @@ use std::{
     net::Ipv4Addr,
     sync::{
         Arc, Mutex,
-        atomic::{AtomicBool, Ordering},
+        atomic::{AtomicBool, AtomicU64, Ordering},
     },
     time::{Duration, Instant},
 };
@@ -44,6 +50,14 @@ const LONG: Duration = Duration::from_secs(30);
 const PROBE: Duration = Duration::from_secs(6);
 /// how long a connection named by a disconnect request may take to leave the registry
 const GONE: Duration = Duration::from_secs(8);
+/// probe deadline for a connection with piled-up traffic (its pong queues behind the backlog)
+const PROBE_BUSY: Duration = Duration::from_secs(20);
+/// how long piling up traffic may take
+const PILE: Duration = Duration::from_secs(30);
+/// a slow reader takes this long per datagram
+const SLOW_US: u64 = 4000;
+const FLOOD_LEN: usize = 32 * 1024;
+const QUEUE_DEPTH: u64 = 512;
 
 #[derive(Clone, Debug)]
 enum Op {
@@ -52,6 +66,7 @@ enum Op {
     Connect(u64),
     Disc(u64, Option<u64>),
     Probe(u64),
+    Flood(u64),
 }
 
 impl Op {
@@ -62,6 +77,7 @@ impl Op {
             Op::Connect(id) => format!("c:{id}"),
             Op::Disc(id, o) => format!("n:{id}:{}", o.map_or("-".into(), |c| c.to_string())),
             Op::Probe(k) => format!("p:{k}"),
+            Op::Flood(k) => format!("f:{k}"),
         }
     }
     fn coq(&self) -> String {
@@ -71,6 +87,7 @@ impl Op {
             Op::Connect(id) => format!("C08.OConnect {id}"),
             Op::Disc(id, o) => format!("C08.ODisc {id} {}", coq_opt(*o, |c| c.to_string())),
             Op::Probe(k) => format!("C08.OProbe {k}"),
+            Op::Flood(k) => format!("C08.OFlood {k}"),
         }
     }
     fn parse(tok: &str) -> Op {
@@ -87,6 +104,7 @@ impl Op {
             "c" => Op::Connect(id(1)),
             "n" => Op::Disc(id(1), if p[2] == "-" { None } else { Some(n(2)) }),
             "p" => Op::Probe(n(1)),
+            "f" => Op::Flood(n(1)),
             _ => panic!("bad op {tok}"),
         }
     }
@@ -97,7 +115,7 @@ fn generate(rng: &mut Rng, i: u64, _n: u64) -> String {
     let nids = rng.range(1, 2);
     let mut ids: Vec<u64> = vec![];
     let mut parked: Vec<bool> = vec![];
-    let mut ops = vec![];
+    let mut ops: Vec<Op> = vec![];
     // probes of parked connections cost the probe deadline: keep them rare
     for _ in 0..len {
         let n = ids.len() as u64;
@@ -113,6 +131,10 @@ fn generate(rng: &mut Rng, i: u64, _n: u64) -> String {
             6..=8 if n > 0 => {
                 let k = any(rng);
                 let id = if rng.chance(7, 8) && (k as usize) < ids.len() { ids[k as usize] } else { rng.below(nids) };
+                // a quarter of the requests find the endpoint with traffic piled up
+                if rng.chance(1, 4) && (k as usize) < parked.len() && !parked[k as usize] {
+                    ops.push(Op::Flood(k));
+                }
                 Op::Disc(id, if rng.chance(1, 2) { Some(k) } else { None })
             }
             9..=11 if n > 0 => {
@@ -175,9 +197,35 @@ struct ConnH {
     cmd: mpsc::UnboundedSender<Cmd>,
     seen: Arc<Mutex<Seen>>,
     eof: Arc<AtomicBool>,
+    /// microseconds this client takes per datagram it reads (0 = reads at full speed)
+    slow: Arc<AtomicU64>,
 }
 
-async fn client_task(mut client: Client, mut rx: mpsc::UnboundedReceiver<Cmd>, seen: Arc<Mutex<Seen>>, eof: Arc<AtomicBool>) {
+/// keeps sending datagrams to `dst` while `on` is set
+async fn flooder_task(mut client: Client, on: Arc<AtomicBool>, dst: Arc<Mutex<Option<EndpointId>>>, stop: Arc<AtomicBool>) {
+    let payload = vec![0xF1u8; FLOOD_LEN];
+    while !stop.load(Ordering::SeqCst) {
+        let target = if on.load(Ordering::SeqCst) { *dst.lock().unwrap() } else { None };
+        match target {
+            Some(d) => {
+                let m = ClientToRelayMsg::Datagrams { dst_endpoint_id: d, datagrams: Datagrams::from(&payload[..]) };
+                if client.send(m).await.is_err() {
+                    break;
+                }
+                tokio::time::sleep(Duration::from_micros(500)).await;
+            }
+            None => tokio::time::sleep(Duration::from_millis(5)).await,
+        }
+    }
+}
+
+struct Flood {
+    on: Arc<AtomicBool>,
+    dst: Arc<Mutex<Option<EndpointId>>>,
+    stop: Arc<AtomicBool>,
+}
+
+async fn client_task(mut client: Client, mut rx: mpsc::UnboundedReceiver<Cmd>, seen: Arc<Mutex<Seen>>, eof: Arc<AtomicBool>, slow: Arc<AtomicU64>) {
     let mut reading = true;
     loop {
         tokio::select! {
@@ -189,7 +237,13 @@ async fn client_task(mut client: Client, mut rx: mpsc::UnboundedReceiver<Cmd>, s
                 Some(Ok(RelayToClientMsg::Ping(p))) => { let _ = client.send(ClientToRelayMsg::Pong(p)).await; }
                 Some(Ok(RelayToClientMsg::Pong(p))) => seen.lock().unwrap().pongs.push(p[0]),
                 Some(Ok(RelayToClientMsg::Datagrams { remote_endpoint_id, datagrams })) => {
-                    seen.lock().unwrap().data.push((remote_endpoint_id, datagrams.contents.first().copied().unwrap_or(0)));
+                    if datagrams.contents.len() < FLOOD_LEN {
+                        seen.lock().unwrap().data.push((remote_endpoint_id, datagrams.contents.first().copied().unwrap_or(0)));
+                    }
+                    let us = slow.load(Ordering::SeqCst);
+                    if us > 0 {
+                        tokio::time::sleep(Duration::from_micros(us)).await;
+                    }
                 }
                 Some(Ok(_)) => {}
                 _ => { eof.store(true, Ordering::SeqCst); reading = false; }
@@ -215,6 +269,9 @@ struct World {
     conns: Vec<ConnH>,
     observer: ConnH,
     probes: u8,
+    flood: Option<Flood>,
+    /// endpoint whose traffic is piled up
+    flooded: Option<u64>,
 }
 
 async fn wait_until(deadline: Duration, mut cond: impl FnMut() -> bool) -> bool {
@@ -240,7 +297,8 @@ impl World {
         config.relay = Some(relay);
         let server = Server::spawn(config).await.expect("server");
         let url: RelayUrl = format!("http://{}", server.http_addr().expect("http addr")).parse().unwrap();
-        let secrets: Vec<SecretKey> = (0..=NIDS).map(|k| SecretKey::from_bytes(&[k as u8 + 11; 32])).collect();
+        // NIDS = observer, NIDS+1 / NIDS+2 = flooders
+        let secrets: Vec<SecretKey> = (0..=NIDS + 2).map(|k| SecretKey::from_bytes(&[k as u8 + 11; 32])).collect();
         let mut w = World {
             server,
             url,
@@ -254,8 +312,11 @@ impl World {
                 cmd: mpsc::unbounded_channel().0,
                 seen: Default::default(),
                 eof: Default::default(),
+                slow: Default::default(),
             },
             probes: 0,
+            flood: None,
+            flooded: None,
         };
         w.observer = w.connect(NIDS, false).await.expect("observer connects");
         w
@@ -307,8 +368,65 @@ impl World {
         let (tx, rx) = mpsc::unbounded_channel();
         let seen = Arc::new(Mutex::new(Seen::default()));
         let eof = Arc::new(AtomicBool::new(false));
-        tokio::spawn(client_task(client, rx, seen.clone(), eof.clone()));
-        Ok(ConnH { cid, eid: id, ticket, cmd: tx, seen, eof })
+        // a connection of an endpoint whose traffic is piled up reads slowly from the start
+        let slow = Arc::new(AtomicU64::new(if self.flooded == Some(id) { SLOW_US } else { 0 }));
+        tokio::spawn(client_task(client, rx, seen.clone(), eof.clone(), slow.clone()));
+        Ok(ConnH { cid, eid: id, ticket, cmd: tx, seen, eof, slow })
+    }
+
+    /// (datagram frames the relay took from clients, datagram frames it wrote to clients)
+    fn traffic(&self) -> (u64, u64) {
+        let m = &self.server.metrics().server;
+        (m.send_packets_recv.get(), m.send_packets_sent.get())
+    }
+
+    /// piles up traffic for endpoint `id`: returns once the relay has refused datagrams for it
+    /// because the send queue of its active connection was full
+    async fn pile_up(&mut self, id: u64) -> bool {
+        if self.flood.is_none() {
+            let (on, dst, stop) = (Arc::new(AtomicBool::new(false)), Arc::new(Mutex::new(None)), Arc::new(AtomicBool::new(false)));
+            for f in 1..=2 {
+                let (url, secret) = (self.url.clone(), self.secrets[(NIDS + f) as usize].clone());
+                sched::disarm(c08::AFTER_ADMIT);
+                match connect_as(&url, &secret).await {
+                    Ok(c) => {
+                        tokio::spawn(flooder_task(c, on.clone(), dst.clone(), stop.clone()));
+                    }
+                    Err(e) => {
+                        eprintln!("c08 harness: flooder: {e}");
+                        return false;
+                    }
+                }
+            }
+            self.flood = Some(Flood { on, dst, stop });
+        }
+        for h in &self.conns {
+            h.slow.store(if h.eid == id { SLOW_US } else { 0 }, Ordering::SeqCst);
+        }
+        self.flooded = Some(id);
+        let (r0, s0) = self.traffic();
+        let fl = self.flood.as_ref().unwrap();
+        *fl.dst.lock().unwrap() = Some(self.secrets[id as usize].public());
+        fl.on.store(true, Ordering::SeqCst);
+        // taken - written > queue depth (+ the one being written, + slack): datagrams were refused
+        // with `Full`, i.e. the queue was full; the flooders go on at several times the readers' pace
+        let m = self.server.metrics().server.clone();
+        wait_until(PILE, || {
+            let (r, s) = (m.send_packets_recv.get(), m.send_packets_sent.get());
+            (r - r0).saturating_sub(s - s0) > QUEUE_DEPTH + 64
+        })
+        .await
+    }
+
+    fn stop_flood(&mut self) {
+        if let Some(fl) = &self.flood {
+            fl.on.store(false, Ordering::SeqCst);
+            *fl.dst.lock().unwrap() = None;
+        }
+        for h in &self.conns {
+            h.slow.store(0, Ordering::SeqCst);
+        }
+        self.flooded = None;
     }
 
     /// a connection that could not be set up: keeps the numbering, matches nothing
@@ -320,6 +438,7 @@ impl World {
             cmd: mpsc::unbounded_channel().0,
             seen: Default::default(),
             eof: Arc::new(AtomicBool::new(true)),
+            slow: Default::default(),
         }
     }
 
@@ -353,7 +472,8 @@ impl World {
         }));
         let (seen, oseen, eof) = (h.seen.clone(), self.observer.seen.clone(), h.eof.clone());
         let mut served = false;
-        wait_until(PROBE, || {
+        let deadline = if self.flooded == Some(h.eid) { PROBE_BUSY } else { PROBE };
+        wait_until(deadline, || {
             served = seen.lock().unwrap().pongs.contains(&tag) && oseen.lock().unwrap().data.contains(&(me, tag));
             served || eof.load(Ordering::SeqCst)
         })
@@ -408,7 +528,24 @@ impl World {
                         still.push(*k);
                     }
                 }
+                // the request has been served: the piled-up traffic stops, everybody reads again
+                self.stop_flood();
                 (1 + u64::from(r), still)
+            }
+            Op::Flood(k) => {
+                if *k >= n || self.conns[*k as usize].eid >= NIDS {
+                    return (0, vec![]);
+                }
+                let (clients, cid, id) = (self.clients().clone(), self.conns[*k as usize].cid, self.conns[*k as usize].eid);
+                if !c08::is_registered(&clients, cid) {
+                    return (0, vec![]);
+                }
+                if self.pile_up(id).await {
+                    (1, vec![])
+                } else {
+                    eprintln!("c08 harness: traffic for endpoint {id} did not pile up");
+                    (7, vec![])
+                }
             }
             Op::Probe(k) => {
                 if *k >= n {
@@ -419,7 +556,11 @@ impl World {
         }
     }
 
-    async fn finish(self) {
+    async fn finish(mut self) {
+        self.stop_flood();
+        if let Some(fl) = &self.flood {
+            fl.stop.store(true, Ordering::SeqCst);
+        }
         sched::reset();
         let _ = tokio::time::timeout(Duration::from_secs(10), self.server.shutdown()).await;
     }
